@@ -113,7 +113,6 @@ class Prop:
     engine = "TH (controlled threads: baton passing, line-level pre-emption points, simulated locks/conditions/clock)"
     quick_runs = 30000
     thorough_runs = 300000
-    quick_budget = 80.0
     chunk = 100
     time_unit = "simulated seconds (clock jumps to the next timer when nothing is runnable)"
     rule = ("1-2 controlled scheduling threads run seeded scripts of schedule / schedule_relative / schedule_absolute / cancel / dispose / "
